@@ -188,8 +188,9 @@ def colOf (c : Coding α) (f : SpecFile α) (name : Bytes) : Option (List α) :=
   | some k => f.verts.mapM (fun r => (r[k]?).map (Datum.val c))
 
 /-- transpose columns of equal length into per-vertex component lists -/
-def zipCols (n : Nat) (cols : List (List α)) : List (List α) :=
-  (List.range n).map (fun i => cols.filterMap (fun col => col[i]?))
+def zipCols : Nat → List (List α) → List (List α)
+  | 0, _ => []
+  | n + 1, cols => cols.filterMap List.head? :: zipCols n (cols.map List.tail)
 
 /-- the names a group uses in this file: all of them, or the first three when the fourth may be absent -/
 def groupNames (present : List Bytes) (g : Bytes × List Bytes × Bool) : Option (List Bytes) :=
@@ -233,7 +234,7 @@ def meaning (c : Coding α) (f : SpecFile α) : Option (MeshVal α) := do
     | some _ =>
       -- per-corner texture coordinates: every corner becomes its own vertex
       let corners ← tri.attrs.mapM (fun a => do
-        let d ← idx.mapM (fun i => a.data[i.toNat]?)
+        let d ← (gather a.data idx).toOption
         pure (⟨a.dim, a.name, d⟩ : Attr α))
       let uvs := (fe.faces.map (fun fc => fanUV fc.uv)).flatten
       pure (({ tri with indices := (List.range idx.length).map Int.ofNat, attrs := corners } : MeshVal α).set 2 texCoordAttr uvs)
